@@ -315,6 +315,54 @@ fire('C02', 'labels-guarded-by-other-section', ('src/Data.cpp', 'if (file.header
 fire('C02', 'channel-names-from-point-labels', ('src/Data.cpp', 'analogNames = file.parameters().group("ANALOG").parameter("LABELS").valuesAsString();', 'analogNames = file.parameters().group("POINT").parameter("LABELS").valuesAsString();'))
 fire('C05', 'skip-guard-other-parameter', (W, 'if (nFrames != static_cast<size_t>(grpPoint.parameter("FRAMES").valuesAsInt()[0])){', 'if (nFrames != static_cast<size_t>(grpPoint.parameter("USED").valuesAsInt()[0])){'))
 
+# ---- round-7 rules (status-returning file calls, updater refusals, exclusive value setters, padded queries, shapes of typed getters)
+INC = (W, '#include "ezc3d.h"', '#include "ezc3d.h"\n#include <cstdio>')
+RENAME_W = (W, "std::fstream f(filePath, std::ios::out | std::ios::binary);", 'const std::string tmpPath(filePath + ".tmp");\n    std::fstream f(tmpPath, std::ios::out | std::ios::binary);')
+fire('C15', 'rename-failure-tolerated', INC, RENAME_W,
+     (W, FINAL, FINAL + '\n    if (std::rename(tmpPath.c_str(), filePath.c_str()) != 0)\n        std::remove(tmpPath.c_str());'))
+fire('C15', 'rename-result-dropped', INC, RENAME_W,
+     (W, FINAL, FINAL + '\n    std::rename(tmpPath.c_str(), filePath.c_str());'))
+quiet('C15', 'rename-failure-throws', INC, RENAME_W,
+      (W, FINAL, FINAL + '\n    if (std::rename(tmpPath.c_str(), filePath.c_str()) != 0)\n        throw std::ios_base::failure("Could not move the c3d file to its destination");'))
+fire('C10', 'updater-refuses-midway', (W, '        for (size_t i = 0; i < nPoints; ++i){\n            std::string name;', '        for (size_t i = 0; i < nPoints; ++i){\n            if (i > 254) throw std::invalid_argument("too many points");\n            std::string name;'))
+for pid in ('C01', 'C06'):
+    fire(pid, 'setter-writes-sibling', ('src/Point.cpp', '    _data[3] = residual;', '    _data[3] = residual;\n    if (residual < 0) { x(0); y(0); z(0); }'))
+quiet('C06', 'setter-writes-own-twice', ('src/Point.cpp', '    _data[3] = residual;', '    _data[3] = 0;\n    _data[3] = residual;'))
+fire('C11', 'query-trimmed', ('src/Points.cpp', """    for (size_t i = 0; i < nbPoints(); ++i)
+        if (!point(i).name().compare(pointName))""", """    std::string name(pointName);
+    ezc3d::removeTrailingSpaces(name);
+    for (size_t i = 0; i < nbPoints(); ++i)
+        if (!point(i).name().compare(name))"""))
+fire('C11', 'getter-open-when-empty', ('src/Parameter.cpp', 'if (_data_type != DATA_TYPE::BYTE)', 'if (_data_type != DATA_TYPE::BYTE && !isDimensionConsistent(0, _dimension))'))
+LEAF = """            if (_data_type == DATA_TYPE::BYTE)
+                f.write(reinterpret_cast<const char*>(&(_param_data_int[cmp])), static_cast<int>(_data_type));
+            else if (_data_type == DATA_TYPE::INT)
+                f.write(reinterpret_cast<const char*>(&(_param_data_int[cmp])), static_cast<int>(_data_type));
+            else if (_data_type == DATA_TYPE::FLOAT)
+                f.write(reinterpret_cast<const char*>(&(_param_data_float[cmp])), static_cast<int>(_data_type));
+            else if (_data_type == DATA_TYPE::CHAR){"""
+LEAF2 = """            if (_data_type == DATA_TYPE::FLOAT)
+                f.write(reinterpret_cast<const char*>(&(_param_data_float[cmp])), static_cast<int>(_data_type));
+            else if (_data_type != DATA_TYPE::CHAR)
+                f.write(reinterpret_cast<const char*>(&(_param_data_int[cmp])), %s);
+            else {"""
+for pid in ('C03', 'C04'):
+    fire(pid, 'byte-int-one-width', ('src/Parameter.cpp', LEAF, LEAF2 % 'ezc3d::DATA_TYPE::INT'))
+    quiet(pid, 'byte-int-shared-branch', ('src/Parameter.cpp', LEAF, LEAF2 % 'static_cast<int>(_data_type)'))
+fire('C06', 'override-same-name', ('src/Points.cpp', """    if (idx == SIZE_MAX)
+        _points.push_back(point);""", """    if (idx == SIZE_MAX){
+        size_t found(SIZE_MAX);
+        for (size_t i = 0; i < nbPoints(); ++i)
+            if (!_points[i].name().compare(point.name())){
+                found = i;
+                break;
+            }
+        if (found == SIZE_MAX)
+            _points.push_back(point);
+        else
+            _points[found] = point;
+    }"""))
+
 def main():
     made = 0
     skipped = []
